@@ -125,6 +125,10 @@ func twinRun(cfg engine.Config, H, T, K []engine.Op, exactAfterT bool) (fails []
 	if len(b.Failures) > 0 {
 		fails = append(fails, "oracle failure in B (no interposed part): "+b.Failures[0])
 	}
+	if f, n := rollbackTruncK1(a); len(fails) == 0 {
+		fails = append(fails, f...)
+		a.Stats["rollback-truncate-k1"] += n
+	}
 	if d := diffDigest(digest(a), digest(b)); d != "" && len(fails) == 0 {
 		fails = append(fails, "final state differs: "+d)
 	}
@@ -247,8 +251,9 @@ func init() {
 	register("c07", func(args []string) int {
 		f := parseFlags("c07", args)
 		rep := newReport("C07", f)
-		rep.Rule = "twin executions H;T;K vs H;K on two disks, T = one write transaction ending in Rollback / Close / a Commit that fails (sync #1, sync #2 or a page write fails): T's body allocates from free list and file end, frees old and fresh pages, overwrites (meta growth), flushes; compared: exact allocator state + mapping + root before/after T, every result of K (ids, error kinds), all reads, final state, state after reopen; directed: aborted transactions on a full bounded file with a live overflow area; K1: allocator scripts ending in rollback or in a commit that fails after its allocation step vs. the Coq model (full state after every op). Non-trivial: distinct (config, abort kind, op statistics)."
+		rep.Rule = "K1: the file size after every Rollback / Close vs. the Coq model rollback_truncate; twin executions H;T;K vs H;K on two disks, T = one write transaction ending in Rollback / Close / a Commit that fails (sync #1, sync #2 or a page write fails): T's body allocates from free list and file end, frees old and fresh pages, overwrites (meta growth), flushes; compared: exact allocator state + mapping + root before/after T, every result of K (ids, error kinds), all reads, final state, state after reopen; directed: aborted transactions on a full bounded file with a live overflow area; K1: allocator scripts ending in rollback or in a commit that fails after its allocation step vs. the Coq model (full state after every op). Non-trivial: distinct (config, abort kind, op statistics)."
 		m, err := model.Start()
+		k1Model = m
 		if err != nil {
 			fmt.Fprintln(os.Stderr, err)
 			return 2
